@@ -62,4 +62,9 @@ def check(ctx: Ctx) -> str:
     aa = repo.func("async_utils:auto_aiter")
     s = ast.unparse(aa.node)
     ctx.check("iterable.__aiter__()" in s and "_IteratorToAsyncIterator(iter(iterable))" in s, "auto_aiter", "async_utils:auto_aiter", "iterator source", "auto_aiter must return the object's own async iterator or wrap iter(iterable)", aa.loc())
+    ctx.rule("R4", "no awaitable is created and dropped at compile time: in async mode the optimizer refuses to call coroutine filters and tests (they would return a coroutine that is folded into the template and never awaited)")
+    from .c08 import async_fold_rule
+
+    ctx.use("nodes")
+    async_fold_rule(ctx)
     return __doc__ or ""
